@@ -454,10 +454,11 @@ impl RoomAuthorisations {
                         match self.rooms.get(room_id) {
                             Some(room) => {
                                 let can = if node.node.verifying_key.eq(&verifying_key) {
+                                    //checked at the date that is signed: it is the date peers use
                                     room.can(
                                         &verifying_key,
                                         &node.name,
-                                        node.date,
+                                        now,
                                         &RightType::MutateSelf,
                                     )
                                 } else {
@@ -500,10 +501,11 @@ impl RoomAuthorisations {
                         match self.rooms.get(room_id) {
                             Some(room) => {
                                 let can = if edge.edge.verifying_key.eq(&verifying_key) {
+                                    //checked at the date that is signed: it is the date peers use
                                     room.can(
                                         &verifying_key,
                                         &edge.src_name,
-                                        edge.date,
+                                        now,
                                         &RightType::MutateSelf,
                                     )
                                 } else {
